@@ -240,8 +240,12 @@ func checkC12(c *ctx) {
 }
 
 func checkC13(c *ctx) {
-	c.Rule = "the merge-chain generator (depth <= 3; built / opened / merged inputs; nil / empty / random / full deletion bitmaps) over segments with synonym documents: thesauri present in only some inputs, the same synonym word in several thesauri and segments (different internal ids), terms losing all their definitions; observed: complete thesaurus listing of the re-opened output (+ all exclusion bitmaps) and the extracted parser's reading of the file; expected = extracted spec_merge; non-trivial = >= 2 inputs and >= 2 survivors"
+	c.Rule = "the merge-chain generator (depth <= 3; built / opened / merged inputs; nil / empty / random / full deletion bitmaps) over segments with synonym documents: thesauri present in only some inputs, the same synonym word in several thesauri and segments (different internal ids), terms losing all their definitions; observed: complete thesaurus listing of the re-opened output (+ all exclusion bitmaps) and the extracted parser's reading of the file; expected = extracted spec_merge; plus the merge enumerator (verif hook VerifEnumerate) against the extracted Enum.enumerate; non-trivial = >= 2 inputs and >= 2 survivors"
 	parts := []int{pThes}
+	if bad := enumeratorCorrespondence(c, c.n(300, 10000)); bad != "" {
+		c.Violation("C13 "+bad, false)
+		return
+	}
 	mergeRounds(c, c.n(100, 3000), true, parts, false, "C13", func(mc *mergeCase, r *mergeResult, spec sx.V) string {
 		return thesaurusQueries(c, r.seg, spec)
 	})
